@@ -232,6 +232,11 @@ def job_rebin(n_old, nd):
     res.append(ob(tag + '/coverage', 'discharged' if nret else 'broken', key='C14/coverage', detail='%d returning of %d paths' % (nret, len(ps))))
     return res
 
+def job_front_end(dim, ncall):
+    """the two- and three-dimensional Monte-Carlo front ends pass the region in the right order: the obligations of C13 (same code, same keys) re-run under this property"""
+    import C13
+    return C13.job_mc(dim, ncall)
+
 def DEFAULT_INTERCEPTS_():
     import llsym
     return llsym.DEFAULT_INTERCEPTS
@@ -245,6 +250,7 @@ def jobs(ctx):
     for d in b['dims'][:2]:
         for sc in (0, 1): J.append((job_vegas, (d, sc, b['vegas_calls'])))
     for (no, nd) in b.get('rebin', []): J.append((job_rebin, (no, nd)))
+    for d in (2, 3): J.append((job_front_end, (d, 2)))
     for d in b['dims'][:2]:
         for sn in GRID_SCRIPTS: J.append((job_vegas_grid, (d, 2 * b['vegas_calls'], sn)))
     return J
@@ -254,6 +260,9 @@ def validate(ctx):
 
 def replay(ctx, o):
     import ctypes
+    if str(o.get('key', '')).startswith('C13/'):
+        import C13
+        return C13.replay(ctx, o)
     so = native(ctx); m = o['model'] or {}; key = o['key']
     if key.startswith('C14/rebin'):
         R = [q2f(q) for q in m['r']]; g = [q2f(q) for q in m['grid']] + [1.0]; nd = m['nd']; no = m['n_old']
